@@ -11,5 +11,6 @@ CONSTANTS
   Alphabet = "wide"
   Prefits = {"none", "fit", "fitbase"}
   CfgSel = "all"
-  Depth = 5
+  Sample = 4
+  Depth = 6
 CHECK_DEADLOCK FALSE
